@@ -2,6 +2,7 @@ package main
 
 import (
 	"fmt"
+	"golang.org/x/tools/go/ssa"
 	"strings"
 )
 
@@ -282,6 +283,74 @@ func ruleC09Clear(cx *Ctx) {
 	}
 }
 
+// ruleC09Cancel: group.delete - the step every write relies on to supersede a running load - really removes the record.
+func ruleC09Cancel(cx *Ctx) {
+	const rule = "C09.cancel"
+	cx.R.Rule(rule, 2, "singleflight.delete(key) removes the key's in-flight record unconditionally: its only early return is 'the in-flight table was never initialised' (no record can exist then); otherwise it runs a computation on the in-flight table for that key whose result is nil on every path")
+	fn := cx.need(rule, "", "group", "delete")
+	initF := cx.needField(rule, "", "group", "isInitialized")
+	callsF := cx.needField(rule, "", "group", "calls")
+	compute := cx.need(rule, hmPkg, "Map", "Compute")
+	if fn == nil || initF == nil || callsF == nil || compute == nil {
+		return
+	}
+	name := funcName(fn)
+	var comp *ssa.Call
+	allInstrs(fn, func(in ssa.Instruction) {
+		if c, ok := in.(*ssa.Call); ok && isCallTo(c, compute) && sameField(recvField(c), callsF) {
+			comp = c
+		}
+	})
+	if comp == nil {
+		cx.R.Violate(rule, name, "computation", cx.P.Pos(fn.Pos()), "NOT SATISFIED: delete no longer runs a computation on the in-flight table")
+		return
+	}
+	a := callArgs(comp)
+	cx.R.Check(len(a) == 2 && a[0] == ssa.Value(bparam(fn, 1)), rule, name, "key", cx.P.where(comp), "the computation is on the key passed to delete")
+	// the computation removes: its function returns nil on every path
+	cl := closureOf(a[len(a)-1])
+	if cl == nil {
+		if bm := boundMethod(a[len(a)-1]); bm != nil {
+			cl = origin(bm)
+		}
+	}
+	removes := cl != nil
+	if cl != nil {
+		allInstrs(cl, func(in ssa.Instruction) {
+			if r, ok := in.(*ssa.Return); ok {
+				if len(r.Results) != 1 || !isNilConst(r.Results[0]) {
+					removes = false
+				}
+			}
+		})
+	}
+	cx.R.Check(removes, rule, name, "removes", cx.P.where(comp), "the computation's function returns nil on every path (the record is removed whatever it was)")
+	// every return is after the computation, or on a path whose only conditions test the initialisation flag
+	allInstrs(fn, func(in ssa.Instruction) {
+		ret, ok := in.(*ssa.Return)
+		if !ok {
+			return
+		}
+		if instrDominates(comp, ret) {
+			return
+		}
+		// every branch that can lead to this return (not through the computation) tests the initialisation flag
+		onlyInit := true
+		for _, b := range fn.Blocks {
+			ifi, isIf := b.Instrs[len(b.Instrs)-1].(*ssa.If)
+			if !isIf || b == ret.Block() || !blockReachable(b, ret.Block()) || b == comp.Block() {
+				continue
+			}
+			v, _ := stripNot(ifi.Cond)
+			c, isCall := v.(*ssa.Call)
+			if !isCall || !atomicOp(c, initF, "Load") {
+				onlyInit = false
+			}
+		}
+		cx.R.Check(onlyInit && !blockReachable(ret.Block(), comp.Block()), rule, name, "early return", cx.P.where(ret), "delete returns without touching the table only when the table was never initialised - no counter, flag or other shortcut decides that no load is running")
+	})
+}
+
 func fakeCall(o *psOutcome) bool {
 	v, ok := predOf(o, "load(param:cl.isFake)")
 	return ok && v
@@ -431,6 +500,16 @@ func ruleC12Hooks(cx *Ctx) {
 					}
 				}
 				if eff == "install" {
+					// the entry handed to a write hook is the snapshot of the node being installed (its key, the NEW value
+					// and weight, the inherited deadline) - not of the node it replaces
+					for _, e := range calcs {
+						switch e.Args[0] {
+						case "ExpireAfterCreate", "ExpireAfterUpdate", "RefreshAfterCreate", "RefreshAfterUpdate", "RefreshAfterReload":
+							if len(e.Args) > 2 && strings.HasPrefix(e.Args[2], "Entry(") {
+								a.check(name+": write hook sees the new entry", strings.HasPrefix(e.Args[2], "Entry("+c.exit+","), "the calculators of a write are given the snapshot of the node being installed", e.String()+" while installing "+c.exit, o)
+							}
+						}
+					}
 					isReload := false
 					if spec.kind == "loadInstall" {
 						if v, ok := predOf(o, "load(param:cl.isRefresh)"); ok && v {
@@ -507,6 +586,24 @@ func ruleC12Hooks(cx *Ctx) {
 						}
 						a.check(name+" hit: read hook once", n == 1, "a counted read consults ExpireAfterRead exactly once", fmt.Sprintf("%d", n), o)
 					}
+				}
+			}
+			// the read hook belongs to reads: the explicit deadline setters and the writes never consult it, a SetIfAbsent
+			// that finds a live entry (a read of it) consults it exactly once
+			reads := 0
+			for _, e := range allEvents(o, "Calc") {
+				if e.Args[0] == "ExpireAfterRead" {
+					reads++
+				}
+			}
+			switch spec.kind {
+			case "setExp", "setRefr", "set", "invalidate", "compute", "computeIfAbsent", "computeIfPresent":
+				if spec.kind == "set" || spec.kind == "invalidate" || spec.kind == "setExp" || spec.kind == "setRefr" {
+					a.check(name+": no read hook", reads == 0, "an operation that is not a read of the entry does not consult ExpireAfterRead (it would move the deadline the operation sets or leaves alone)", fmt.Sprintf("%d", reads), o)
+				}
+			case "setIfAbsent":
+				if we, k := flagOf(o, "withExpiration"); k && we {
+					a.check(name+": read hook at most once", reads <= 1, "SetIfAbsent on a live entry reads it once", fmt.Sprintf("%d", reads), o)
 				}
 			}
 			if spec.kind == "getQuiet" {
